@@ -62,7 +62,16 @@ MID_NS = [0, 1, 4, 64]
 SEQS = [()] + [s for n in (1, 2, 3) for s in itertools.product("nf", repeat=n)]
 
 
+SEQS_T = SEQS + [s for n in (4, 5) for s in itertools.product("nf", repeat=n)]
+PAIRABLE = [k for k in KINDS if k not in ("channel", "channel_on_fiber")]   # (these two are the region of the open finding KF-C20-chanleak)
+
+
 def prog(kind, n, seq):
+    if "+" in kind:
+        # two kinds of garbage produced side by side in every iteration
+        a, b = kind.split("+")
+        marks = "".join("if i == %d { print('@@gc %s'); } " % (j, "nursery" if k == "n" else "full") for j, k in enumerate(seq))
+        return PRE + "fn work(i) { %s }\nfn work2(i) { %s }\nlet i = 0; while i < %-4d { work(i); work2(i); %si += 1; }\nprint('end', keep.len());\n" % (KINDS[a], KINDS[b], n, marks)
     body = KINDS[kind]
     marks = "".join("if i == %d { print('@@gc %s'); } " % (j, "nursery" if k == "n" else "full") for j, k in enumerate(seq))
     return PRE + "fn work(i) { %s }\nlet i = 0; while i < %-4d { work(i); %si += 1; }\nprint('end', keep.len());\n" % (body, n, marks)
@@ -93,14 +102,19 @@ class C20(Check):
     rule = ("one garbage-producing loop per managed kind (%d kinds) x n in %s iterations x every sequence of <= 3 forced collections "
             "from {nursery, full} at iteration boundaries (%d sequences), each ended by a forced full collection (and, for n in {0,1,4,64}, also stopped without it: books == blocks between collections); spec = (kind, "
             "sequence), its cases are the runs for all n. non-trivial = the runs of the spec released at least one block during a "
-            "collection and the final statistics were compared" % (len(KINDS), NS, len(SEQS)))
+            "collection and the final statistics were compared; thorough tier: sequences of <= 5 collections (%d) and every ordered pair of the %d kinds outside the open finding's region "
+            "produced side by side in each iteration x the 7 sequences of <= 2 collections" % (len(KINDS), NS, len(SEQS), len(SEQS_T), len(PAIRABLE)))
     assumptions = ["block sizes are taken from the harness allocator's own header (independent of Laythe's size() code)",
                    "the std-lib's permanent objects are part of the live set", "steady state is decided as equal block counts (bytes within 64) for n in {16, 64, 256}"]
 
     def gen(self, tier):
         for kind in KINDS:
-            for seq in SEQS:
+            for seq in (SEQS_T if tier == "thorough" else SEQS):
                 yield (kind, seq)
+        if tier == "thorough":
+            for a, b in itertools.product(PAIRABLE, repeat=2):
+                for seq in SEQS[:7]:
+                    yield (a + "+" + b, seq)
         for kind in REPL_KINDS:
             yield (kind, "repl")
 
